@@ -119,7 +119,29 @@ def _distribute(prng, total, n, skew):
     return col
 
 
+RECIPROCAL_INEXACT = (49, 98, 103, 107, 161, 187, 196, 197)      # integers s with s * (1.0 / s) != 1.0
+
+
+def gen_scale_scenario(prng, index):
+    """One generation at scale: a single custom motif (star) with a large orbit and 2e4-4e4 instances, i.e. a column of
+    1-7 million stubs spread evenly over 2000 vertices.  Numeric shortcuts (reciprocals, epsilons, float counts) that are
+    exact on every small input go wrong only here."""
+    k = prng.choice(RECIPROCAL_INEXACT[:4] + (50, 64, 100))
+    count = prng.randrange(22000, 34000)
+    n = 2000
+    total = k * count
+    col = [total // n + (1 if v < total % n else 0) for v in range(n)]
+    spec = {"tag": f"scale-star-{k}", "orbits": [k], "edges": [[0, i] for i in range(1, k)], "ret": "list",
+            "names": [f"e{i}" for i in range(k - 1)], "names_ret": "tuple"}
+    return {"variant": "clean", "algo": "motifs", "via": prng.choice(("direct", "factory")), "rows": "tuple", "n": n,
+            "motifs": [spec], "jds": [[c] for c in col], "policy": {"shuffle": ["uniform"]}, "faults": [], "repeat": 1,
+            "scale": True}
+
+
 def gen_scenario(prng, tier, index, focus):
+    # thorough tier only: a generation at scale costs ~30 s; the quick tier does not reach million-stub inputs
+    if focus == "C01" and tier == "thorough" and index % 16000 in (1, 2, 3):
+        return gen_scale_scenario(prng, index)
     big = tier == "thorough" or prng.random() < 0.08   # swarm: some large inputs in every tier
     huge = big and prng.random() < 0.3
     variant = "faults" if index % 3 == 2 else "clean"
@@ -362,7 +384,7 @@ def run_generation(sc, ctx, on_result):
         before = [tuple(r) for r in jds]
         types_before = [type(r) for r in jds]
         st, val = ctx.call(src, algo.random_clustered_graph, jds, abort_at=abort_at,
-                           budget=200000, label=f"generate[{sc['algo']}]")
+                           budget=200000 if not sc.get("scale") else None, label=f"generate[{sc['algo']}]")
         if st == "fault":
             ctx.fault("callback_raise")
         rec.fail_at = None
